@@ -31,11 +31,21 @@ GROUPS = {
         # the recompute condition
         dict(name="Simulator_recompute_cond", file=SIM, qual="Simulator.run", expr_path="body[2].body[2].test",
              types={"self._resolve": "bool", "self.max_recompute": "optZ", "self._last_schedule_update": "optZ"}),
-        # body of `if <recompute>`: scheduler.run(); _update_schedules; history; bookkeeping
-        dict(name="Simulator_schedule_block", file=SIM, qual="Simulator.run", stmt_path="body[2].body[2].body[0:5]",
+        # body of `if <recompute>`, in three consecutive pieces so that the POSITION of each write matters:
+        #   pre  = what is written before the scheduler is called (`self._resolve = True`: a resolve stays
+        #          pending while the scheduler runs, so an interrupted run can be resumed in this period);
+        #   mid  = scheduler.run(); _update_schedules(...); schedule_history  (no flag is written here);
+        #   post = bookkeeping once the schedule is applied (`_last_schedule_update = _iteration; _resolve = False`).
+        # Model/SimSkel.v reads `_resolve` from pre and `_last_schedule_update`, `_resolve` from post: moving or
+        # dropping either final write leaves the post record without that field and the model stops compiling.
+        dict(name="Simulator_schedule_pre", file=SIM, qual="Simulator.run", stmt_path="body[2].body[2].body[0:1]",
+             types={"self._resolve": "bool"}),
+        dict(name="Simulator_schedule_mid", file=SIM, qual="Simulator.run", stmt_path="body[2].body[2].body[1:4]",
              call_params={"self.scheduler.run": ("schedule_in", "num")},
-             types={"self._resolve": "bool", "self._last_schedule_update": "optZ", "self.schedule_history": "optZ"},
+             types={"self.schedule_history": "optZ"},
              effects=["self._update_schedules", "self.schedule_history"], setitem_effects=["self.schedule_history"]),
+        dict(name="Simulator_schedule_post", file=SIM, qual="Simulator.run", stmt_path="body[2].body[2].body[4:6]",
+             types={"self._resolve": "bool", "self._last_schedule_update": "optZ"}),
         # tail of the loop body: update_pilots; store rates; post_charging_update; advance
         dict(name="Simulator_step_tail", file=SIM, qual="Simulator.run", stmt_path="body[2].body[6:10]",
              types={"self.pilot_signals": "num"},
